@@ -80,6 +80,9 @@ void vk_end(const char *why)
 {
 	vk_trace("%s", why);
 	fflush(stdout);
+#ifdef VERIF_COVERAGE
+	{ extern void __gcov_dump(void); __gcov_dump(); }
+#endif
 	_exit(0);
 }
 
